@@ -134,6 +134,11 @@ func (li *Language) Update(input UpdateInput) error {
 		return fmt.Errorf("%w: %s", errType, strings.Join(p.Errors(), "\n"))
 	}
 
+	// the checks that do not depend on the item come first (see CheckUpdateSyntax)
+	if result := language.ValidateUpdate(update); result != nil && result.Type() == language.ObjectTypeError {
+		return fmt.Errorf("%w: %s", ErrSyntaxError, result.Inspect())
+	}
+
 	item := map[string]*types.Item{}
 
 	for field, val := range input.Item {
